@@ -206,6 +206,7 @@ class Sim:
         self.preempts = 0
         self.proc_tag = None
         self.gc_tried = False
+        self.in_gc = False
         self.tap = None
         self.spin_limit = self.knobs.get('spin_limit', 60000)
         self.fired = False
@@ -443,7 +444,13 @@ class Sim:
                     import gc
                     self.gc_tried = True
                     n0 = self.nsys
-                    gc.collect()
+                    # finalizers run here on behalf of whatever thread happens to be in the scheduler: they must neither
+                    # switch threads (the collector is not re-entrant) nor receive asynchronous exceptions
+                    self.in_gc = True
+                    try:
+                        gc.collect()
+                    finally:
+                        self.in_gc = False
                     self.probe('gc-at-quiescence')
                     if self._runnable():
                         self.probe('progress-only-after-gc')
@@ -519,6 +526,8 @@ class Sim:
 
     def switch(self, t):
         """Give up the baton from thread t (which is the caller). Returns when t is scheduled again."""
+        if self.in_gc:
+            return
         n = self._pick(t)
         if n is None:
             # run is over; park this thread forever
@@ -712,7 +721,7 @@ class Sim:
             self.sys_return(t)
 
     def _delivery_point(self, t, kind, code, line):
-        if t.no_async or t.in_handler:
+        if t.no_async or t.in_handler or self.in_gc:
             return
         t.ndp += 1
         if self.dp_hook is not None:
